@@ -90,9 +90,8 @@ def concrete(recipe, sims, m, in_bytes, w_bytes):
     return [(what, sn[i].name, b, int(bad) & 255) for what, i, b, bad in obl if int(bad) & 255]
 
 
-def check_item(item):
+def _check_path(item, rep, eng):
     recipe, sims, m = item
-    rep = common.Report()
     name = recipe[1]['name'] if recipe[0] == 'nl' else recipe[1]
     try:
         c = netlist.from_recipe(recipe)
@@ -104,7 +103,7 @@ def check_item(item):
         except Exception as e2:
             rep.violation(f'exception={type(e2).__name__}@{name}/m{m}', f'real code raised {type(e2).__name__}: {e2}',
                           {'recipe': recipe, 'sims': sims, 'm': m, 'in_bytes': [], 'w_bytes': {}})
-        return rep
+        return
     wv = {}
 
     def mkw(n):
@@ -114,11 +113,11 @@ def check_item(item):
     rep.counts['circuits'] += 1
     rep.counts['ops'] += len(s.ops)
     rep.counts['obligations'] += len(obl)
-    q = lanes.Q(rep)
+    q = lanes.Q(rep, eng=eng)
     q.add(*side)
     if q.check() != z3.sat:
         rep.error(f'assumptions unsatisfiable on {name}')
-        return rep
+        return
     r = z3.unsat
     for b in sorted({o[2] for o in obl}):          # one query per byte (bytes are independent lanes)
         r = q.check(z3.Or([bad != 0 for _, _, bb, bad in obl if bb == b]))
@@ -142,22 +141,32 @@ def check_item(item):
             rep.error(f'counterexample on {name} m={m} does not replay on the real code (model error)')
     else:
         rep.error(f'solver unknown on {name} m={m}')
-    return rep
+    return
 
+
+def check_item(item):
+    """one exploration per item: the real simulator normally has a single path; data-dependent fast paths fork (E2)"""
+    rep = common.Report()
+    lanes.explore(lambda eng: _check_path(item, rep, eng), rep)
+    return rep
 
 def twin(rep):
     """vacuity guard: with a deliberately wrong algebra (AND without controlling-0 rule) the pipeline must find a mismatch."""
     nl = netlist.NL('twin', [('a', 'in'), ('b', 'in'), ('z', 'out')], [('g', 'AND2', ['z'], ['a', 'b'])])
     c = netlist.build(nl, 'verilog')
-    for m in (4, 8):
-        s, ins = build(c, 3, m)
-        alg = specmv.AlgMV(lanes.ZERO, lanes.ONES, m)
-        a = planes_of(ins, 0, m); b = planes_of(ins, 1, m)
-        wrong = alg._nary([a, b], lambda x, y: x & y, lambda v: lanes.ZERO, alg.zero)
-        q = lanes.Q(rep)
-        if q.check((alg.n(alg.same(planes(s.s[1], 2, 0, m), wrong)) & 7) != 0) != z3.sat:
-            rep.error('reachability twin failed')
-        rep.counts['twins'] += 1
+    refuted = []
+
+    def fn(eng):
+        for m in (4, 8):
+            s, ins = build(c, 3, m)
+            alg = specmv.AlgMV(lanes.ZERO, lanes.ONES, m)
+            a = planes_of(ins, 0, m); b = planes_of(ins, 1, m)
+            wrong = alg._nary([a, b], lambda x, y: x & y, lambda v: lanes.ZERO, alg.zero)
+            q = lanes.Q(rep, eng=eng)
+            refuted.append(q.check((alg.n(alg.same(planes(s.s[1], 2, 0, m), wrong)) & 7) != 0) == z3.sat)
+    lanes.explore(fn, rep)
+    if not any(refuted): rep.error('reachability twin failed')
+    rep.counts['twins'] += 1
 
 
 def planes_of(ins, i, m): return (ins[(i, 0, 0)], ins[(i, 1, 0)], ins[(i, 2, 0)] if m == 8 else lanes.ZERO)
